@@ -38,9 +38,9 @@ type HookEvent struct {
 type hookFn func(*HookEvent)
 
 var (
-	hooksMu sync.RWMutex
-	hooks   = map[int64]hookFn{}
-	hookSeq int64
+	hooksMu    sync.RWMutex
+	hooks      = map[int64]hookFn{}
+	hookSeq    int64
 	HookCounts sync.Map // point → *int64
 )
 
@@ -112,45 +112,45 @@ func removeHook(id int64) {
 // ---------------------------------------------------------------------------------------------------------------------
 
 type BedConfig struct {
-	Hosts           int
-	NumConns        int
-	Version         primitive.ProtocolVersion
-	MaxVersion      primitive.ProtocolVersion
-	Keyspaces       []string
-	HeartBeat       time.Duration
-	Idle            time.Duration
-	ConnectTimeout  time.Duration
-	ReconnectBase   time.Duration
-	ReconnectMax    time.Duration
-	IdempotentGraph bool
-	DSEVersion      string
-	RPCAddr         string
-	DC              string
-	Tokens          []string
-	Peers           []proxy.PeerConfig
-	KeepBodies      bool
-	NeverCompress   bool
-	Lenient         bool
-	RefreshWindow   time.Duration
-	PreparedCache   proxycore.PreparedCache
-	Cluster         *fakecass.Cluster // reuse an existing cluster (several proxies on one backend)
-	Log             *mon.Log
-	ReconnectPolicy proxycore.ReconnectPolicy
-	Logger          *zap.Logger
+	Hosts             int
+	NumConns          int
+	Version           primitive.ProtocolVersion
+	MaxVersion        primitive.ProtocolVersion
+	Keyspaces         []string
+	HeartBeat         time.Duration
+	Idle              time.Duration
+	ConnectTimeout    time.Duration
+	ReconnectBase     time.Duration
+	ReconnectMax      time.Duration
+	IdempotentGraph   bool
+	DSEVersion        string
+	RPCAddr           string
+	DC                string
+	Tokens            []string
+	Peers             []proxy.PeerConfig
+	KeepBodies        bool
+	NeverCompress     bool
+	Lenient           bool
+	RefreshWindow     time.Duration
+	PreparedCache     proxycore.PreparedCache
+	Cluster           *fakecass.Cluster // reuse an existing cluster (several proxies on one backend)
+	Log               *mon.Log
+	ReconnectPolicy   proxycore.ReconnectPolicy
+	Logger            *zap.Logger
 	BackendMaxVersion primitive.ProtocolVersion
-	Unlisted        []int // hosts that exist (listen) but are not in the peers table when the proxy starts
+	Unlisted          []int // hosts that exist (listen) but are not in the peers table when the proxy starts
 }
 
 type Bed struct {
-	Cfg     BedConfig
-	Cluster *fakecass.Cluster
-	Proxy   *proxy.Proxy
-	Addr    string
-	Log     *mon.Log
-	Policy  *RecPolicy
-	cancel  context.CancelFunc
-	ln      net.Listener
-	hookIDs []int64
+	Cfg        BedConfig
+	Cluster    *fakecass.Cluster
+	Proxy      *proxy.Proxy
+	Addr       string
+	Log        *mon.Log
+	Policy     *RecPolicy
+	cancel     context.CancelFunc
+	ln         net.Listener
+	hookIDs    []int64
 	ownCluster bool
 }
 
@@ -262,7 +262,9 @@ func (b *Bed) Close() {
 	if b.Cluster != nil {
 		suffix := fmt.Sprintf(":%d", b.Cluster.Port)
 		prefix := b.Cluster.Prefix
-		proxycore.VerifForgetConns(func(_, remote string) bool { return strings.HasPrefix(remote, prefix) && strings.HasSuffix(remote, suffix) })
+		proxycore.VerifForgetConns(func(_, remote string) bool {
+			return strings.HasPrefix(remote, prefix) && strings.HasSuffix(remote, suffix)
+		})
 	}
 }
 
